@@ -48,7 +48,7 @@ Theorem C09_new_code_rx : forall c code start rip v m,
   ax_new c code start rip = (Ok v, m) ->
   mem (st m) = {| a_start := start; a_len := zlen code; a_data := code; a_access := 5 |} :: nil.
 Proof.
-  intros c code start rip v m. unfold ax_new.
+  intros c code start rip v m. unfold ax_new, ax_new_from.
   destruct (add_chk c U64 start (zlen code)); try discriminate.
   unfold mem_init_area. cbn [mem set_trace set_symbols set_call_stack set_regs set_code_end empty_state].
   destruct (start + zlen code >=? 2 ^ 64); [discriminate|]. cbn [existsb].
